@@ -7,7 +7,7 @@ pub fn def() -> PropDef {
         builds: BOTH,
         rule: "every text over each menu up to length N x every configuration (separator, algorithm, splitter incl. a hyphen-inserting custom one, break_words, 4 indent pairs, LF/CRLF, width range); each (text, configuration) pair is enumerated exactly once; non-trivial = the output has >= 2 lines, or a space was skipped between slices, or a hyphen was inserted",
         assumptions: BASE_ASSUMPTIONS,
-        floor: |t| t.pick(100_000, 1_000_000),
+        floor: |t| t.pick(100_000, 300_000),
         run,
     }
 }
